@@ -576,11 +576,11 @@ Definition parse_id (s : bytes) : oid :=
   | [] => (parse_N n, 0%N)
   end.
 
-(* BTreeMap::insert on the definitions: a later definition of the same id replaces the earlier *)
+(* PDFObjContext::register_obj (as of commit f218988): the first definition of an id is kept *)
 Fixpoint ctx_set (c : octx) (id : oid) (o : obj) : octx :=
   match c with
   | [] => [(id, o)]
-  | (id', o') :: r => if oid_eqb id id' then (id, o) :: r else (id', o') :: ctx_set r id o
+  | (id', o') :: r => if oid_eqb id id' then (id', o') :: r else (id', o') :: ctx_set r id o
   end.
 
 Definition parse_ctx (s : bytes) : option octx :=
